@@ -217,7 +217,10 @@ def finish(ctx, meta, cmdline):
                             'unguarded loop, no stale snapshot of self.X in '
                             'a loop that rebinds it, no mutable bound to two '
                             'targets, no container shared between instances '
-                            '/ calls, on the same functions']
+                            '/ calls, on the same functions',
+                            'DX the clauses of other properties that this '
+                            'one rests on (txsa/premises.py), re-run and '
+                            're-reported']
         + list(meta.get('decided', [])),
         'undecided_clauses': meta.get('undecided', []),
         'advisories': ctx.advisories,
